@@ -49,6 +49,7 @@ func init() {
 		{Name: "watch-ignores-failure-flag", File: "query.go", Old: "if (ctx.Err() != nil || receiveFailed.Load()) && !gotException.Load() {", New: "if ctx.Err() != nil && !gotException.Load() {", Rule: "C04.watch-order", Construct: ""},
 	}
 	mutants["C05"] = []Mutant{
+		{Name: "zstd-method-byte", File: "compress/compress.go", Old: "encodedZSTD  methodEncoding = 0x90", New: "encodedZSTD  methodEncoding = 0x91", Rule: "C05.methods", Construct: "ZSTD"},
 		{Name: "block-limit-above-documented", File: "compress/compress.go", Old: "\tmaxBlockSize = maxDataSize\n", New: "\tmaxBlockSize = maxDataSize + maxDataSize/255 + 16\n", Rule: "C05.bounds", Construct: "size#1"},
 		{Name: "dst-sized-by-source", File: "compress/writer.go", Old: "\tmaxSize := lz4.CompressBlockBound(len(buf))\n", New: "\tmaxSize := len(buf)\n\tif w.lz4 != nil {\n\t\tmaxSize = lz4.CompressBlockBound(len(buf))\n\t}\n", Rule: "C05.dst", Construct: ""},
 		{Name: "no-datasize-limit", File: "compress/reader.go", Old: "if dataSize < 0 || dataSize > maxDataSize {", New: "if dataSize < 0 {", Rule: "C05.bounds", Construct: ""},
@@ -142,6 +143,7 @@ func init() {
 		{Name: "lc-map-kept", File: "proto/col_low_cardinality.go", Old: "\t} else {\n\t\tclear(c.kv)\n\t}\n", New: "\t}\n", Rule: "C16.dict", Construct: "Prepare"},
 	}
 	mutants["C17"] = []Mutant{
+		{Name: "feature-in-strict", File: "proto/feature.go", Old: "return v >= f.Version()", New: "return v > f.Version()", Rule: "C17.thresholds", Construct: "Feature.In"},
 		{Name: "setting-flags-iota", File: "proto/query.go", Old: "\tsettingFlagImportant = 0x01\n\tsettingFlagCustom    = 0x02\n\tsettingFlagObsolete  = 0x04", New: "\tsettingFlagImportant = iota + 1\n\tsettingFlagCustom\n\tsettingFlagObsolete", Rule: "C17.flags", Construct: "flags/Setting"},
 		{Name: "progress-gate-decoder-only", File: "proto/progress.go", Old: "\tif FeatureClientWriteInfo.In(version) {\n\t\t{\n\t\t\tv, err := r.UVarInt()", New: "\tif FeatureServerLogs.In(version) {\n\t\t{\n\t\t\tv, err := r.UVarInt()", Rule: "C17.shape", Construct: "Progress"},
 		{Name: "serverhello-fields-swapped", File: "proto/server_hello.go", Old: "\tif FeatureTimezone.In(v) {\n\t\tb.PutString(s.Timezone)\n\t}\n\tif FeatureDisplayName.In(v) {\n\t\tb.PutString(s.DisplayName)\n\t}", New: "\tif FeatureDisplayName.In(v) {\n\t\tb.PutString(s.DisplayName)\n\t}\n\tif FeatureTimezone.In(v) {\n\t\tb.PutString(s.Timezone)\n\t}", Rule: "C17.fieldorder", Construct: "ServerHello"},
